@@ -5,6 +5,8 @@ import os
 import time
 
 VERIF = os.path.dirname(os.path.dirname(os.path.abspath(__file__)))
+# dev-only redirection used by tools/mutcheck.py so parallel mutant runs do not clobber evidence/
+OUT = os.environ.get("LAYTHE_OUT", VERIF)
 
 
 class Finding:
@@ -109,10 +111,10 @@ def finish(rec, facts_hash, seed=0, replay_only=None):
     stale = sorted(k for k in open_keys if k not in rec.findings)
     for f in kf:
         print("KNOWN-FINDING: property=%s %s [%s] %s — %s" % (rec.prop, f.key, f.loc, f.msg, open_keys[f.key].get("what", "")))
-    os.makedirs(os.path.join(VERIF, "replay"), exist_ok=True)
+    os.makedirs(os.path.join(OUT, "replay"), exist_ok=True)
     for f in viol:
         h = hashlib.sha1(f.key.encode()).hexdigest()[:10]
-        rp = os.path.join(VERIF, "replay", "%s-%s.json" % (rec.prop, h))
+        rp = os.path.join(OUT, "replay", "%s-%s.json" % (rec.prop, h))
         with open(rp, "w") as out:
             json.dump({"property": rec.prop, "finding": f.to_json(), "facts_hash": facts_hash, "returned": f.key in fixed_keys}, out, indent=1)
         print("  rule %s: %s" % (f.rule, f.msg))
@@ -154,8 +156,8 @@ def finish(rec, facts_hash, seed=0, replay_only=None):
         "wall_s": round(time.time() - rec.t0, 3),
         "violations": len(viol),
     }
-    os.makedirs(os.path.join(VERIF, "evidence"), exist_ok=True)
-    with open(os.path.join(VERIF, "evidence", rec.prop + ".json"), "w") as out:
+    os.makedirs(os.path.join(OUT, "evidence"), exist_ok=True)
+    with open(os.path.join(OUT, "evidence", rec.prop + ".json"), "w") as out:
         json.dump(ev, out, indent=1, sort_keys=False)
         out.write("\n")
     print("[%s %s] rules=%d instances=%d discharged=%d known=%d suspects=%d violations=%d unanalysed=%d (%.1fs)" % (
